@@ -321,7 +321,7 @@ steps:
 			}
 		case "Prune":
 			if haveMetric && st.Expired > 0 {
-				deadline := time.Now().Add(200 * time.Millisecond)
+				deadline := time.Now().Add(40 * time.Millisecond)
 				for {
 					v, ok := expiredMetric(reg)
 					if !ok || int(v) >= st.Expired {
@@ -357,7 +357,7 @@ steps:
 	}
 	// quiescence of the prune goroutines (soft), then the final listing
 	if haveMetric && !diverged && s.Expired > 0 {
-		deadline := time.Now().Add(200 * time.Millisecond)
+		deadline := time.Now().Add(40 * time.Millisecond)
 		for {
 			v, ok := expiredMetric(reg)
 			if !ok || int(v) >= s.Expired || time.Now().After(deadline) {
